@@ -44,6 +44,9 @@ def check(model, tier):
     payload.r10_4_who_may_attach(ctx, rule="R08.7")
     optional_rules.r_optional_truthiness(ctx, "R08.8")
     sqlplace.r_sort_mapping(ctx, "R08.9")
+    from ..rules import sqlemit as _sqlemit
+
+    _sqlemit.r_identifier_agreement(ctx, "R08.14")
     from ..rules import purity, structure
     from .common import SQL_ENGINE
 
